@@ -12,7 +12,7 @@ from specs.api_entry import *
 def idle_pub(r: Ref['mqtt.pdu.PUBLISH']) -> bool:
     """a QoS 1/2 PUBLISH left in the window by an earlier connection: no timer"""
     return (isa(r, 'mqtt.pdu.PUBLISH') and is_int(r.msgId) and 1 <= r.msgId and r.msgId <= 65535
-            and is_int(r.qos) and 1 <= r.qos and r.qos <= 2 and is_bytes(r.encoded) and len(as_bytes(r.encoded)) >= 1
+            and is_int(r.qos) and 1 <= r.qos and r.qos <= 2 and is_bytes(r.encoded) and len(as_bytes(r.encoded)) >= 1 and enc_ok(r)
             and is_bool(r.retain) and is_str(r.topic) and is_bool(r.dup) and deferred_pending(r) and is_int(r.retries)
             and isa(r.interval, 'mqtt.client.interval.IntervalLinear') and wf_linear(r.interval) and is_none(r.alarm))
 
@@ -20,7 +20,7 @@ def idle_pub(r: Ref['mqtt.pdu.PUBLISH']) -> bool:
 @spec
 def idle_rel(r: Ref['mqtt.pdu.PUBREL']) -> bool:
     return (isa(r, 'mqtt.pdu.PUBREL') and is_int(r.msgId) and 1 <= r.msgId and r.msgId <= 65535
-            and is_bytes(r.encoded) and len(as_bytes(r.encoded)) >= 1 and deferred_pending(r) and is_int(r.retries)
+            and is_bytes(r.encoded) and len(as_bytes(r.encoded)) >= 1 and enc_ok(r) and deferred_pending(r) and is_int(r.retries)
             and isa(r.interval, 'mqtt.client.interval.Interval') and wf_interval(r.interval) and is_none(r.alarm))
 
 
